@@ -4,7 +4,7 @@ use crate::findings::Findings;
 use crate::interp::{Failure, Stats};
 use crate::ops::*;
 use crate::runner::*;
-use crate::sut::{self, key_bytes, to_meta, wait_quiet, Cfg, Sut};
+use crate::sut::{self, key_bytes, to_meta, wait_quiet, Cfg, Pred, Sut};
 use bytes::Bytes;
 use proptest::prelude::*;
 use serde_json::{json, Value};
@@ -24,7 +24,21 @@ pub fn live_strategy() -> BoxedStrategy<Case> {
         c.allow_dup = true;
         c
     });
-    (cfg, prop::collection::vec(op_strategy(&gen), 0..gen.max_ops)).prop_map(|(cfg, ops)| Case { cfg, ops }).boxed()
+    // a worker that is late for a pending deferred dump while the next deferring request is already queued:
+    // delete (marks a closed blob) - slow predicate - delete, spliced into a third of the histories
+    let splice = prop_oneof![2 => Just(None), 1 => (any::<u16>(), 0u8..4, 0u8..4).prop_map(Some)];
+    (cfg, prop::collection::vec(op_strategy(&gen), 0..gen.max_ops), splice)
+        .prop_map(|(cfg, mut ops, splice)| {
+            if let Some((pos, k1, k2)) = splice {
+                let at = crate::damage::pick(pos, ops.len() + 1);
+                let triple = [Op::Delete { key: k1, ts: 3, meta: 0, only_if: false }, Op::ForceUpdate(Pred::SlowNever), Op::Delete { key: k2, ts: 3, meta: 0, only_if: false }];
+                for (j, o) in triple.into_iter().enumerate() {
+                    ops.insert(at + j, o);
+                }
+            }
+            Case { cfg, ops }
+        })
+        .boxed()
 }
 
 fn fail<T>(clause: &str, detail: String, step: usize, op: &str) -> Result<T, Failure> {
@@ -140,7 +154,8 @@ pub fn run_live(c: &Case, dir: &Path, _findings: &Findings) -> Result<CaseOut, F
             blind(&mut s, &c.cfg, i, op, &mut labels).await;
             // every call that requests an index dump: once the background machinery is idle, every non-empty closed
             // blob has a complete, current index file (the dump task covers all closed blobs)
-            if matches!(op, Op::CloseActive | Op::Switch | Op::BgClose | Op::ForceUpdate(_) | Op::Free) {
+            // (not after the slow predicate: the point of it is that the next calls overlap with the busy worker)
+            if matches!(op, Op::CloseActive | Op::Switch | Op::BgClose | Op::ForceUpdate(_) | Op::Free) && !matches!(op, Op::ForceUpdate(Pred::SlowNever)) {
                 match wait_quiet(s.as_ref(), true, Duration::from_secs(60)).await {
                     Ok(_) => {}
                     Err(st) => {
@@ -249,7 +264,7 @@ pub fn run(ctx: &RunCtx) -> PropResult {
     PropResult {
         report,
         level: "exploration",
-        rule: "proptest sequences over all public calls (create_/close_/restore_active_blob_in_background in every active-blob state, try_* variants, force_update with four predicates, data ops, offload, fsync, free, restarts) with a record limit of 3-11 or a byte limit of a few hundred bytes and 2-5 ms deferred dumps; then the probe: make sure an active blob exists, wait 230 ms (the rotation debounce is 200 ms of blob age), write limit+1 records, wait until the background machinery is idle (H3 probe). Oracle at idle: the worker task is alive, next_blob_id and blobs_count advanced (a switch happened), every non-empty closed blob has an index file with the written flag and its current blob size (requested dumps completed), close() returns Ok. Idle means nothing is pending, so a missing switch is definite, not a timing guess. Non-trivial = the sequence contains a background request that could not apply in its state. distinct = FNV hash of the serialized case.".into(),
+        rule: "proptest sequences over all public calls (create_/close_/restore_active_blob_in_background in every active-blob state, try_* variants, force_update with four predicates plus a slow one (8 ms, longer than the deferred-dump times; spliced as delete - slow predicate - delete so that the worker is late for a pending deferred dump while the next deferring request is already queued), data ops, offload, fsync, free, restarts) with a record limit of 3-11 or a byte limit of a few hundred bytes and 2-5 ms deferred dumps; then the probe: make sure an active blob exists, wait 230 ms (the rotation debounce is 200 ms of blob age), write limit+1 records, wait until the background machinery is idle (H3 probe). Oracle at idle: the worker task is alive, next_blob_id and blobs_count advanced (a switch happened), every non-empty closed blob has an index file with the written flag and its current blob size (requested dumps completed), close() returns Ok. Idle means nothing is pending, so a missing switch is definite, not a timing guess. Non-trivial = the sequence contains a background request that could not apply in its state. distinct = FNV hash of the serialized case.".into(),
         assumptions: {
             let mut a = common_assumptions();
             a.push("a close() that does not return within 120 s ends the run as inconclusive (exit 2), never as a violation".into());
